@@ -226,3 +226,21 @@ def call_pos(obj, m, k, i):
 def call_seq(obj, m, k):
     target = _log(obj, m)[k]
     return next(i for i, c in enumerate(getattr(obj, "_all_calls", getattr(obj, "calls", []))) if c is target)
+
+
+# ghost log of calls to contracted repository functions (LOGGED_FUNCTIONS of a spec), native side: pyvc.native wraps
+# the real function for the duration of one evaluation and records (args, kwargs, result) here
+_FLOG: dict = {}
+
+
+def fcalls(name):
+    return len(_FLOG.get(name, []))
+
+
+def fcall_pos(name, k, i):
+    a = _FLOG[name][k][0]
+    return a[i] if i < len(a) else None
+
+
+def fcall_ret(name, k):
+    return _FLOG[name][k][2]
